@@ -215,8 +215,8 @@ NODE_ASSUME = ["sockets, timers and goroutine scheduling are replaced by the sim
 NODE_TRUST = ["state dump (abstraction function) in go/inpkg/sim.go / sim_cluster.go", "boolean equalities and the map-order oracle search of Node/Cases.v"]
 
 
-def reg_node(pid, level_text, extra_assume=()):
-    register(pid, run=run_node, tie="coq/Node/Cases.v vs rpc.go, follower.go, candidate.go, leader.go, config.go, changeconfig.go, "
+def reg_node(pid, level_text, extra_assume=(), extra_props=()):
+    register(pid, run=run_node, extra_props=tuple(extra_props), tie="coq/Node/Cases.v vs rpc.go, follower.go, candidate.go, leader.go, config.go, changeconfig.go, "
              "transfer.go, fsm.go, replication.go, storage.go (per-event differential execution)",
              assumptions=NODE_ASSUME + list(extra_assume), trusted=NODE_TRUST, level_text=level_text)
 
@@ -322,3 +322,102 @@ reg_node("C08", "Theorems: every configuration derived by one action is adjacent
          "canChangeConfig holds (incl. own-term commit: the pre-repair guard is refuted); followers adopt the newest configuration entry. "
          "PARTIAL: the cross-leader overlap argument (H_overlap) is not mechanised (said in Props/C08.v).",
          ["NoDup node ids; requests carry consecutive entries"])
+
+
+# ------------------------------------------------------------------ C10
+
+def run_c10(pid, tier, seed):
+    wd = vlib.workdir(pid)
+    nseq, nsteps = (10, 250) if tier == "quick" else (200, 400)
+    rc, out = vlib.vh(["raft", "crashsim", seed, nseq, nsteps, wd], timeout=3000)
+    if rc != 0:
+        return {"violations": [{"signature": "harness-died crashsim", "detail": out[-1500:], "found": True,
+                                "replay": {"property": pid, "kind": "process died while driving the real code", "output_tail": out[-3000:], "seed": seed}}]}
+    meta = json.load(open(os.path.join(wd, "crashsim_meta.json")))
+    viols, seen = [], {}
+    # the events themselves are also compared with the model (restart cases included)
+    files = sorted(glob.glob(os.path.join(wd, "cases_crashsim_*.v")))
+    res = vlib.run_case_files(files)
+    broken = None
+    for f in files:
+        ok, ids, log = res[f]
+        if not ok:
+            broken = "model evaluation failed on %s: %s" % (os.path.basename(f), log[-1200:])
+            continue
+        for i in ids:
+            kind = meta.get("kinds", {}).get(str(i))
+            if kind in ("ERestart", "ESnapReq", "EAppendReq", "EVoteReq", "ESnapRun", "ESnapTaken", "ETask"):
+                viols.append({"signature": "node-mismatch %s" % kind, "found": True,
+                              "detail": "model and implementation disagree on case %d (%s)" % (i, meta["desc"].get(str(i))),
+                              "replay": {"property": pid, "kind": "node-correspondence", "case_id": i, "case_file": f, "event": kind}})
+    for fnd in meta.get("findings") or []:
+        prop, sig, detail, trace = (fnd.split("|", 3) + ["", "", ""])[:4]
+        if prop != "C10":
+            continue
+        seen[sig] = seen.get(sig, 0) + 1
+        if seen[sig] <= 3:
+            viols.append({"signature": "monitor " + sig, "detail": detail, "found": True,
+                          "replay": {"property": pid, "kind": "crash image of a real node violates the property", "oracle": sig, "what": detail,
+                                     "seed": seed, "schedule_tail": trace.split(" ; ")}})
+    cov = {"evaluations": meta["images"], "distinct_nontrivial": len([p for p in meta["points"].split() if p]) + meta["cases"],
+           "rule": "the cluster simulator and the scenario corpus with crash imaging: while a real node executes an event its storage directory is "
+                   "copied at every verifPoint of the raft and log packages (vote/term persisted, bootstrap steps, snapshot before/after publication, "
+                   "installation published / log cleared, segment flushes, header lowering, roll-over, segment creation steps, segment removal); every "
+                   "copy is restarted with the real New (+ restore) and judged: starts; term/vote not older; flushed entries retained (below what the "
+                   "event may legitimately touch); log contiguous with the snapshot; handles an append and a vote request from a newer leader. "
+                   "evaluations = crash images restarted; distinct_nontrivial = distinct crash points + events executed",
+           "samples": [meta["points"]] + meta["samples"][:2], "distribution": meta["dist"], "image_failures": meta["image_failures"],
+           "exhaustive_over": "all verifPoints fired by each imaged event"}
+    return {"violations": viols, "coverage": cov, "tie_broken": broken}
+
+
+register("C10", run=run_c10, tie="crash images of real nodes (go/inpkg/sim_crash.go) + coq/Node/Cases.v (ERestart) vs storage.go, value.go, snapshots.go, rpc.go, fsm.go, log/*",
+         assumptions=NODE_ASSUME + ["process-crash model: completed file operations survive, the unflushed log tail is lost"],
+         trusted=NODE_TRUST + ["directory copies taken inside verifPoint hooks"],
+         level_text="Theorems: restart keeps term and vote, keeps every flushed entry, resets a log left behind its snapshot, and re-establishes the "
+                    "node invariant the other proofs assume (ERestart case of the C19 invariant); the log-level crash theorems of C14 cover the "
+                    "segment files. Tie/search: every verifPoint of every storage-mutating handler is a crash point on real nodes.")
+
+
+reg_node("C02", "Theorems: (abstract protocol, Props/C02.v when present) leader completeness and commit stability for every cluster size and "
+         "interleaving; (node level, Props/C02_rules.v) a vote is newly cast only for an at-least-as-up-to-date log, a follower truncates only "
+         "from the first conflicting index, holds every request entry as sent, the follower commit index moves only to covered current-term "
+         "entries, a leader's log is append-only. Monitors: committed entries never differ between nodes, every leader holds all committed entries.",
+         ["static voter set in the abstract theorems; voter-set changes need the overlap hypothesis (C08)"], extra_props=["C02_rules.v"])
+reg_node("C03", "Theorems: (abstract protocol, Props/C03.v when present) committed prefixes of any two nodes are prefix-related; (node level) the "
+         "state machine is fed the entries after its position up to the commit index contiguously, in order, once (apply_is_contiguous, "
+         "queue_applied_in_order). Monitor: state-machine command lists of all nodes are pairwise prefix-related after every event.",
+         ["deterministic FSM"], extra_props=["C02_rules.v", "C09.v"])
+reg_node("C04", "Theorems: (abstract protocol, Props/C04.v) log matching for any two logs of any reachable state and leader append-only; (node level) "
+         "requests are faithful log slices with the right prevLogTerm, followers hold request entries exactly as sent, leaders never rewrite "
+         "their log. Monitor: (index, term) -> (type, payload, predecessor term) stays a function over every log ever dumped.",
+         [], extra_props=["C02_rules.v"])
+reg_node("C07", "Theorems (node level): non-leaders reject definitively and change nothing; a transferring/demoted leader rejects the whole batch; "
+         "accepted updates are appended in batch order at the next indices with the leader's term; tasks are released only as a committed prefix "
+         "of the queue (so a read/barrier reflects every update accepted before it); an update's reply is the state machine's result for the entry "
+         "at its index; at the end of leadership every queued task gets the ambiguous answer. Uniqueness/survival of the entry: C02/C03.",
+         ["batching by runBatch is a schedule choice (any batching is a list handed to storeEntry)"])
+reg_node("C09", "Theorems (node level): apply is contiguous; a snapshot never exceeds the commit index; compaction removes only a prefix at or below "
+         "the snapshot; on a leader it keeps the entry at every follower's match index and hands replications a view that starts inside the log; "
+         "the request writer yields log entries or asks for a snapshot; installation resets log and state machine position together. PARTIAL: the "
+         "instant at which a goroutine touches mapped memory is outside the model (scenario + live driver cover it).", [])
+reg_node("C12", "Theorems: the snapshot task captures state-machine position and committed configuration at the same instant and publishes exactly "
+         "that label, only if newer; the captured configuration is the one in force at the label's index (given the bookkeeping invariant); after "
+         "restart the membership is the newest configuration entry above the snapshot, else the label; installation adopts the label.", [])
+reg_node("C17", "Theorems: leader stickiness (full: a non-transfer vote request from another node leaves a follower that knows a leader exactly as "
+         "it was); mechanisms of progress: time-out starts an election, an up-to-date candidate gets every allowed vote, a quorum of grants wins, "
+         "rejections strictly lower nextIndex down to matchIndex+1, success raises the match index, a single voter commits alone, quorum loss steps "
+         "down. PARTIAL: real time / bounded number of election time-outs is outside the model.", [])
+
+
+reg_node("C11", "Theorems: an election is started only by a voter of the node's own latest configuration (time-out aborts, timeout-now is refused "
+         "otherwise); whatever the event, a node that becomes candidate or leader is a voter of its latest configuration (or of the configuration it "
+         "held when elected, if as a single voter it demoted itself in the same step); non-voters' match indices never influence the commit point; "
+         "promotion only after the current round completed (and was fast enough or nothing new arrived); a leader that is no voter of a "
+         "configuration it commits steps down; shutdown-on-remove only after the removing configuration is committed.",
+         ["NoDup node ids in a configuration (Go map)"])
+reg_node("C16", "Theorems: timeout-now goes only to another voter that is reachable and holds the leader's whole log; while a transfer is in "
+         "progress no entry is appended and every task of a batch is told so, and no configuration action starts; the transfer task is told success "
+         "only when the leader is released having seen a higher term; every other ending reports an error and clears the transfer; impossible "
+         "requests are refused unchanged; a node told to time out now campaigns with the transfer flag. Two leaders in one term: C01.",
+         [])
